@@ -27,7 +27,10 @@ PROPERTIES = ["C20"]
 
 GOOD = ["fsv_mod_a.connect", "fsv_mod_a.write_pandas", "fsv_mod_b.sf_connect"]
 LAZY = ["fsv_mod_lazy.connect"]
-BAD = {"missing_module": "fsv_nope.connect", "missing_attr": "fsv_mod_a.nope", "not_snowflake": "fsv_mod_other.connect"}
+BAD = {"missing_module": "fsv_nope.connect", "missing_attr": "fsv_mod_a.nope", "not_snowflake": "fsv_mod_other.connect",
+       # the same refusals for a module that patch() itself imports first
+       "lazy_missing_attr": "fsv_mod_lazy_bad.nope", "lazy_not_snowflake": "fsv_mod_lazy_bad.connect"}
+LAZY_INDIRECT = "fsv_mod_lazy_ind.connect"  # not imported before patch(); takes its connect from a module that was
 BODY = ["normal", "Exception", "KeyboardInterrupt", "SystemExit"]
 
 MODULES = {
@@ -35,6 +38,8 @@ MODULES = {
     "fsv_mod_b.py": "from snowflake.connector import connect as sf_connect\n",
     "fsv_mod_lazy.py": "from snowflake.connector import connect\n",
     "fsv_mod_other.py": "def connect(*a, **k):\n    return 'not snowflake'\n",
+    "fsv_mod_lazy_bad.py": "def connect(*a, **k):\n    return 'not snowflake either'\n",
+    "fsv_mod_lazy_ind.py": "from fsv_mod_b import sf_connect as connect\n",
     "fsv_script.py": "import sys, json, os\nopen(os.environ['FSV_OUT'], 'w').write(json.dumps(sys.argv))\nimport snowflake.connector\nopen(os.environ['FSV_OUT'] + '.fake', 'w').write(type(snowflake.connector.connect).__name__)\n"
                      "mode = os.environ.get('FSV_MODE', 'normal')\nif mode == 'raise':\n    raise RuntimeError('boom')\nif mode == 'exit':\n    sys.exit(3)\n",
 }
@@ -49,6 +54,8 @@ def _target_lists() -> list[dict[str, Any]]:
         {"targets": [GOOD[2], GOOD[0], GOOD[1]], "fault": None},
         {"targets": [LAZY[0]], "fault": None, "lazy": True},
         {"targets": [GOOD[0], LAZY[0]], "fault": None, "lazy": True},
+        {"targets": [LAZY_INDIRECT], "fault": None, "lazy_indirect": True},
+        {"targets": [GOOD[0], LAZY_INDIRECT], "fault": None, "lazy_indirect": True},
     ]
     for cause, bad in BAD.items():
         for pos in range(3):
@@ -214,6 +221,9 @@ def child(w: int, sc: dict[str, Any], base: str) -> None:
         if "fsv_mod_lazy" in sys.modules:
             lz = sys.modules["fsv_mod_lazy"].connect
             check(f"{tag}:lazy-module-target-original", lz is orig_connect, type(lz).__name__)
+        if "fsv_mod_lazy_ind" in sys.modules:
+            li = sys.modules["fsv_mod_lazy_ind"].connect
+            check(f"{tag}:lazy-indirect-target-original", li is orig_connect, type(li).__name__)
 
     holder: dict[str, Any] = {}
     entered = False
@@ -233,6 +243,9 @@ def child(w: int, sc: dict[str, Any], base: str) -> None:
                 check("inside:extra-is-fake", isinstance(cur, mock.MagicMock), t)
             if sc.get("lazy"):
                 check("inside:lazy-is-fake", isinstance(sys.modules["fsv_mod_lazy"].connect, mock.MagicMock))
+            if sc.get("lazy_indirect"):
+                li = sys.modules.get("fsv_mod_lazy_ind")
+                check("inside:lazy-indirect-is-fake", li is not None and isinstance(li.connect, mock.MagicMock), type(getattr(li, "connect", None)).__name__)
             conn = snowflake.connector.connect(database="db1", schema="s1")
             holder["conn"] = conn
             check("inside:fake-connection-works", type(conn).__name__ == "FakeSnowflakeConnection" and conn.cursor().execute("select 1").fetchall() == [(1,)])
